@@ -17,7 +17,7 @@ EXPLANATION = (
     "stride gv.sps, compares |sample| > threshold, and the threshold is THRESHOLD_EST of the eye measured on the same waveform. C03.3: "
     "ppm.DSP hard = PPM_DECODER(HDD(SAMPLER(x, sps//2) > rth, M), M) with rth = the given threshold, else the eye's KDE threshold, else "
     "THRESHOLD_EST(eye, M); soft = PPM_DECODER(SDD(x, M), M). C03.4: the sampling instant of both chains is the offset at which DAC places "
-    "its Gaussian pulse pair (sps//2, sps//2-1) and lies inside the NRZ slot. C03.6: for a field without a noise component, in both polarisation layouts, PD hands electrical_signal a signal current and a noise current with one entry per sample each (coarse shape typing scalar / N / 2xN of the value forms). C03.7: the eye the OOK receiver measures is folded from a record cut to whole two-slot periods (any slot count, odd included, is accepted). The transfer functions of the blocks themselves are decided "
+    "its Gaussian pulse pair (sps//2, sps//2-1) and lies inside the NRZ slot. C03.6: for a field without a noise component, in both polarisation layouts, PD hands electrical_signal a signal current and a noise current with one entry per sample each (coarse shape typing scalar / N / 2xN of the value forms). C03.7: the eye the OOK receiver measures is folded from a record cut to whole two-slot periods (any slot count, odd included, is accepted). C03.8: the PPM soft decision sums every sample of a slot and takes the argmax per symbol (for every sps). The transfer functions of the blocks themselves are decided "
     "under C05, C06, C09, C11, C12, C17. NOT decided: that the composed chain recovers every bit pattern for every configuration.")
 TRUSTED = ["the per-block properties C05, C06, C09, C11, C12, C17", "numpy comparison/sum semantics"]
 LEVEL_TEXT = ("Partial, structural: decides the wiring of ook.DSP / ppm.DSP (sampling instant, comparator, threshold source, decoder order) and the "
@@ -253,6 +253,9 @@ def run(ctx):
             ctx.check("C03.6", not bad, fpd, rets_p[0].node, f"PD [noise-free input, n_pol={npol}, {opt}]: signal current {shs}, noise current {shn}", "one entry per sample in both",
                       f"for a {'two' if npol == 2 else 'one'}-polarisation field without noise the signal current has shape {shs} and the noise current {shn}: "
                       "electrical_signal(signal, noise) raises ValueError (shape mismatch) and the noise-free link returns no bits in this layout")
+    # ---------------------------------------------------------------- C03.8 the soft decision of the PPM receiver is the slot-energy argmax
+    from .c12 import rule_sdd
+    rule_sdd(ctx, None, "C03.8")
     # ---------------------------------------------------------------- C03.7 the eye measured by the OOK receiver accepts any slot count
     from .c17 import rule_even_slots
     rule_even_slots(ctx, "C03.7")
@@ -263,3 +266,4 @@ def run(ctx):
     ctx.require_min("C03.4", 1)
     ctx.require_min("C03.6", 4)
     ctx.require_min("C03.7", 2)
+    ctx.require_min("C03.8", 2)
